@@ -40,12 +40,25 @@ def kv(op):
     return d
 
 
+def knobs(d):
+    """guarded verification knobs (hook commit f89843c) selected by op keys full= native= chunk="""
+    env = {}
+    if d.get('full', '0') == '1':
+        env['REF_VERIF_PARTITIONER_FULL'] = '1'
+    if d.get('native', '0') == '1':
+        env['REF_VERIF_NATIVE_ALLTOALLV'] = '1'
+    if 'chunk' in d:
+        env['REF_VERIF_REDUCE_BYTE_LIMIT'] = d['chunk']
+    return env
+
+
 def run_ref(ctx, np, args, cwd, timeout=240, env_extra=None):
     exe = build_ref(ctx, np is not None and np > 0)
     env = dict(os.environ)
     env['ASAN_OPTIONS'] = 'detect_leaks=0:exitcode=99'
     env['UBSAN_OPTIONS'] = 'halt_on_error=1:exitcode=98'
     env['MALLOC_PERTURB_'] = str(1 + (ctx.seed * 37 + 11) % 254)
+    env['OMPI_MCA_mpi_yield_when_idle'] = '1'   # ranks are over-subscribed: do not spin
     if env_extra:
         env.update(env_extra)
     cmd = ([exe] if not np else MPIRUN + ['-n', str(np), exe]) + args
@@ -138,7 +151,7 @@ def sc_adapt(ctx, d, case):
             '--export-metric-as', os.path.join(case, 'out-metric.solb')]
     if d.get('part'):
         args += ['--partitioner', d['part']]
-    rc, tail = run_ref(ctx, np, args, case)
+    rc, tail = run_ref(ctx, np, args, case, env_extra=knobs(d))
     return 'rc=%d dir=%s' % (rc, case)
 
 
@@ -221,13 +234,13 @@ def oracle_adapt_metric(ops, impl):
     return bad
 
 
-def gen_adapt(rng, tier, np=None):
+def gen_adapt(rng, tier, np=None, scale=1.0):
     """half refining, half coarsening scenarios: coarsening on multi-patch boundaries is where the collapse
     guards (face-id rule, same-normal, ridge/corner preservation) are the only thing between the metric and
     the domain; refinement exercises split/swap/cavity."""
     ops = []
-    n3 = 6 if tier == 'quick' else 20
-    n2 = 4 if tier == 'quick' else 14
+    n3 = max(2, int(scale * (6 if tier == 'quick' else 20)))
+    n2 = max(2, int(scale * (4 if tier == 'quick' else 14)))
     for k in range(n3):
         coarsen = k % 2 == 1
         if coarsen:
@@ -273,7 +286,8 @@ def gen_adapt(rng, tier, np=None):
 def sc_distance(ctx, d, case):
     dim, v, cells, mesh = make_mesh(d, case)
     np = int(d.get('np', '0'))
-    rc, tail = run_ref(ctx, np, ['distance', mesh, os.path.join(case, 'dist.solb'), '--viscous-tags', d.get('walls', '1')], case)
+    rc, tail = run_ref(ctx, np, ['distance', mesh, os.path.join(case, 'dist.solb'), '--viscous-tags', d.get('walls', '1')], case,
+                       env_extra=knobs(d))
     return 'rc=%d dir=%s' % (rc, case)
 
 
@@ -557,9 +571,10 @@ def sc_npindep(ctx, d, case):
         os.makedirs(c2, exist_ok=True)
         dim, v, cells, mesh = make_mesh(d, c2)
         if sub == 'translate':
-            rc, _ = run_ref(ctx, k, ['translate', mesh, os.path.join(c2, 'out.meshb')], c2)
+            rc, _ = run_ref(ctx, k, ['translate', mesh, os.path.join(c2, 'out.meshb')], c2, env_extra=knobs(d))
         elif sub == 'distance':
-            rc, _ = run_ref(ctx, k, ['distance', mesh, os.path.join(c2, 'out.solb'), '--viscous-tags', d.get('walls', '1')], c2)
+            rc, _ = run_ref(ctx, k, ['distance', mesh, os.path.join(c2, 'out.solb'), '--viscous-tags', d.get('walls', '1')], c2,
+                            env_extra=knobs(d))
         else:
             ldim = int(d.get('ldim', '2'))
             f = field_fn(d.get('field', 'gen:1,2,3'), ldim)
@@ -571,7 +586,7 @@ def sc_npindep(ctx, d, case):
             _, rv, rcells, rmesh = make_mesh(rd, c2)
             os.rename(rmesh, os.path.join(c2, 'rec.meshb'))
             rc, _ = run_ref(ctx, k, ['interpolate', os.path.join(c2, 'donor.meshb'), os.path.join(c2, 'donor.solb'),
-                                     os.path.join(c2, 'rec.meshb'), os.path.join(c2, 'out.solb')], c2)
+                                     os.path.join(c2, 'rec.meshb'), os.path.join(c2, 'out.solb')], c2, env_extra=knobs(d))
         outs.append(rc)
     return 'rc=%d rcp=%d dir=%s' % (outs[0], outs[1], case)
 
@@ -623,6 +638,10 @@ def gen_npindep(rng, tier, np=None):
         sub = rng.choice(['translate', 'distance', 'interp'])
         op = 'npindep sub=%s dim=%d n=%s jitter=%.2f mseed=%d np=%d' % (
             sub, dim, ','.join(map(str, n)), rng.choice([0, 0.3]), rng.randint(1, 10 ** 6), np or rng.choice([2, 3, 4, 5]))
+        if rng.random() < 0.6:
+            op += ' chunk=%d' % rng.choice([64, 100, 1000, 4096])
+        if rng.random() < 0.3:
+            op += ' native=1'
         if sub == 'distance':
             op += ' walls=%s' % ','.join(map(str, sorted(rng.sample(range(1, 5), rng.randint(1, 2)))))
         if sub == 'interp':
@@ -645,9 +664,15 @@ NPINDEP = Stream('cli_npindep', cli_harness, None, gen_npindep, oracle=oracle_np
 # ------------------------------------------------------------------ parallel adapt (C04)
 def gen_adapt_mpi(rng, tier, np):
     ops = []
-    for op in gen_adapt(rng, tier, np):
+    for op in gen_adapt(rng, tier, np, scale=0.5):
         if rng.random() < 0.4:
             op += ' part=5'
+        if rng.random() < 0.75:
+            op += ' full=1'      # keep every rank active although the mesh is tiny
+        if rng.random() < 0.3:
+            op += ' native=1'
+        if rng.random() < 0.5:
+            op += ' chunk=%d' % rng.choice([64, 100, 4096])
         ops.append(op)
     return ops
 
